@@ -18,7 +18,7 @@ RULE = ("(a) all strings up to the tier's length over {a C : / \\ # . f i l e} t
         "objects across chdir; fragments rejected. non-trivial = a load through >= 2 resources; distinct by (layout, cwd, way)")
 
 ALPHA = ["a", "C", ":", "/", "\\", "#", ".", "f", "i", "l", "e"]
-NAMECHARS = ["a", "B", "7", " ", "-", "_", ".", "~", "+", "&", ";", "[", "]", "é", "ü"]
+NAMECHARS = ["a", "B", "7", " ", "-", "_", ".", "~", "+", "&", ";", "[", "]", "é", "ü", "e\u0301", "u\u0308", "\u4e2d", "\u212b"]   # (precomposed AND decomposed letters: a file name is not normalised)
 
 
 _used_names = set()
@@ -311,7 +311,12 @@ def run(ctx):
             # the symbolic link: same result through all four entry points
             for cwd in t["dirs"]:
                 os.chdir(cwd)
-                sch0 = ZConfig.loadSchema(t["schema"])
+                try:
+                    sch0 = ZConfig.loadSchema(t["schema"])
+                except Exception as e:
+                    ctx.violate("the schema of the tree does not load by its absolute path from %r: %s: %s" % (cwd, type(e).__name__, str(e)[:200]),
+                                {"tree": _listing(root), "cwd": cwd, "schema": t["schema"]}, signature="C18:schema-by-path:%s" % type(e).__name__)
+                    break
                 for cway, carg in ways(t["linked_config"], cwd):
                     ctx.evaluations += 1
                     ctx.nontriv((root, cwd, cway, "symlink"))
